@@ -575,7 +575,10 @@ class PyScan:
                 sc = scope_of(n)
                 f = n.func
                 if isinstance(f, ast.Name) and f.id == "sorted" and n.args:
-                    self.add(rel, n, n.args[0], sc.expr(n.args[0]), True, "output", "sorted")
+                    # sorted(S) on strings is a total order; sorted(S, key=...) is only as good as the key is injective (str.lower ties 'FooBar' / 'Foobar'
+                    # and the tied elements keep the set's iteration order): a keyed sort of a set does NOT count as sorted
+                    keyed = any(kw.arg == "key" for kw in n.keywords)
+                    self.add(rel, n, n.args[0], sc.expr(n.args[0]), not keyed, "output", "sorted-by-key" if keyed else "sorted")
                 elif isinstance(f, ast.Name) and f.id in ORDER_FREEZERS and not consumer_insensitive(n):
                     pp = parents.get(n)
                     if f.id == "iter" and isinstance(pp, ast.Call) and isinstance(pp.func, ast.Name) and pp.func.id == "next":
@@ -851,6 +854,28 @@ def recursion_test_exact(H):
     return ok
 
 
+# ------------------------------------------------------------------ _create_schemas queues EVERY failed component for the next round
+def create_retry_unconditional(H):
+    """True iff in _create_schemas the branch `if isinstance(<result of update_schemas_with_data>, PropertyError):` appends to next_round as a direct
+    statement (not under a further condition on the error).  Whether a failure is final is decided by 'no progress in a whole round', never by
+    looking at the error: an error whose data is a schema (a failing INLINE member of a union) is as retryable as one whose data is a reference."""
+    defs = H.funcdefs.get("_create_schemas", [])
+    if len(defs) != 1:
+        return False
+    found = False
+    for n in ast.walk(defs[0]):
+        if isinstance(n, ast.If) and isinstance(n.test, ast.Call) and isinstance(n.test.func, ast.Name) and n.test.func.id == "isinstance" and len(n.test.args) == 2 \
+                and src(n.test.args[1]).endswith("PropertyError") and isinstance(n.test.args[0], ast.Name) and n.test.args[0].id == "schemas_or_err":
+            direct = [st for st in n.body if isinstance(st, ast.Expr) and isinstance(st.value, ast.Call) and isinstance(st.value.func, ast.Attribute)
+                      and st.value.func.attr == "append" and src(st.value.func.value) == "next_round"]
+            first_exit = next((i for i, st in enumerate(n.body) if isinstance(st, (ast.Continue, ast.Return, ast.Break, ast.Raise)) or
+                               (isinstance(st, ast.If) and any(isinstance(x, (ast.Continue, ast.Return, ast.Break, ast.Raise)) for x in ast.walk(st)))), len(n.body))
+            if not direct or n.body.index(direct[0]) > first_exit:
+                return False
+            found = True
+    return found
+
+
 # ------------------------------------------------------------------ Schemas registries are only extended through copies (evolve), never in place
 def registries_persistent(H):
     """True iff no statement inserts into classes_by_name / classes_by_reference / models_to_process of an existing object in place
@@ -913,7 +938,7 @@ def collect():
     return out
 
 
-def generate(sites, regs=(), rec_exact=False, persistent=False):
+def generate(sites, regs=(), rec_exact=False, persistent=False, retry_all=False):
     eff = {"none": "ENone", "diag": "EDiag", "output": "EOutput"}
     lines = ["(* GENERATED by harness/translate/gen_loops.py from the templates and the Python sources under openapi_python_client/. Do not edit. *)\n",
              "From Coq Require Import NArith List Bool.\nImport ListNotations.\nRequire Import OPC.Order OPC.Registry.\n",
@@ -934,6 +959,8 @@ def generate(sites, regs=(), rec_exact=False, persistent=False):
     lines.append("Definition gen_recursion_test_exact : bool := %s.\n" % ("true" if rec_exact else "false"))
     lines.append("(* no in-place insertion into Schemas.classes_by_name / classes_by_reference / models_to_process anywhere in the package (only evolve'd copies) *)\n")
     lines.append("Definition gen_registries_persistent : bool := %s.\n" % ("true" if persistent else "false"))
+    lines.append("(* _create_schemas queues every failed component for the next round, whatever the error looks like *)\n")
+    lines.append("Definition gen_create_retry_unconditional : bool := %s.\n" % ("true" if retry_all else "false"))
     return "".join(lines)
 
 
@@ -964,5 +991,5 @@ if __name__ == "__main__":
     if not any(s["kind"] == "jinja" for s in sites) or not any(s["kind"] == "py" for s in sites):
         print("gen_loops: implausible result (no template sites or no python sites)")
         sys.exit(1)
-    changed = write_if_changed(os.path.join(HERE, "..", "..", "coq", "gen", "GenLoops.v"), generate(sites, regs, recursion_test_exact(_H), registries_persistent(_H)))
+    changed = write_if_changed(os.path.join(HERE, "..", "..", "coq", "gen", "GenLoops.v"), generate(sites, regs, recursion_test_exact(_H), registries_persistent(_H), create_retry_unconditional(_H)))
     print("GenLoops.v", "rewritten" if changed else "unchanged", "(%d sites, %d unsorted, %d unknown; %d registration sites: %s)" % (len(sites), sum(not s["sorted"] for s in sites), sum(not s["known"] for s in sites), len(regs), ",".join(r["kind"] for r in regs)))
